@@ -17,7 +17,12 @@ func (fgen *funcGen) newInst(old ast.Instruction) (ir.Instruction, error) {
 	// Value instructions.
 	case *ast.LocalDefInst:
 		ident := localIdent(old.Name())
-		return fgen.newValueInst(ident, old.Inst())
+		inst, err := fgen.newValueInst(ident, old.Inst())
+		if err != nil {
+			return nil, err
+		}
+		fgen.recordExplicitID(ident, inst)
+		return inst, nil
 	case ast.ValueInstruction:
 		unnamed := ir.LocalIdent{}
 		return fgen.newValueInst(unnamed, old)
